@@ -82,6 +82,9 @@ func cmpVec(name string, want, got map[string]float64) string {
 	for k := range got {
 		keys[k] = true
 	}
+	// a nil message (the "nothing to say" value the helpers drop) is no message of any
+	// type: how it is tallied is not claimed
+	delete(keys, "UNDEFINED")
 	var ks []string
 	for k := range keys {
 		ks = append(ks, k)
@@ -147,7 +150,9 @@ func (m *promModel) applyClient(sess int, op c19Op) {
 func (m *promModel) applyServer(sess int, op c19Op) {
 	m.mu.Lock()
 	defer m.mu.Unlock()
-	m.send[op.Kind[4:]]++
+	if op.Kind != "SRV-NIL" {
+		m.send[op.Kind[4:]]++
+	}
 	m.send["NOTICE"]++ // the marker
 	if op.Kind == "SRV-CLOSED" {
 		if m.open[sess][op.ID] {
@@ -194,13 +199,15 @@ func c19ServerMsg(op c19Op) mocrelay.ServerMsg {
 		return mocrelay.NewServerCountMsg(op.ID, 3, nil)
 	case "SRV-CLOSED":
 		return mocrelay.NewServerClosedMsg(op.ID, "", "bye")
+	case "SRV-NIL":
+		return nil // the handler has nothing to say: dropped on the way, the session goes on
 	}
 	panic(op.Kind)
 }
 
 func c19DrawOp(t *rapid.T, label string, sess int) c19Op {
 	kinds := []string{"REQ", "REQ", "REQ", "CLOSE", "CLOSE", "COUNT", "EVENT", "EVENT", "AUTH",
-		"SRV-EOSE", "SRV-EVENT", "SRV-NOTICE", "SRV-OK", "SRV-AUTH", "SRV-COUNT", "SRV-CLOSED", "SRV-CLOSED"}
+		"SRV-EOSE", "SRV-EVENT", "SRV-NOTICE", "SRV-OK", "SRV-AUTH", "SRV-COUNT", "SRV-CLOSED", "SRV-CLOSED", "SRV-NIL"}
 	op := c19Op{Sess: sess, Kind: rapid.SampledFrom(kinds).Draw(t, label+"op")}
 	op.ID = rapid.SampledFrom([]string{"a", "b", "c", ""}).Draw(t, label+"id")
 	if op.Kind == "EVENT" || op.Kind == "AUTH" {
@@ -293,7 +300,11 @@ func TestC19Metrics(t *testing.T) {
 					if err != nil {
 						failf("stalled", "server messages pass the middleware", err.Error())
 					}
-					if len(got) != 1 || got[0] != msg {
+					if msg == nil {
+						if len(got) != 0 {
+							failf("server-msg-altered", "a nil message of the handler produces nothing", hx.JSON(briefServers(got)))
+						}
+					} else if len(got) != 1 || got[0] != msg {
 						failf("server-msg-altered", "every server message passes through unaltered", hx.JSON(briefServers(got)))
 					}
 					model.applyServer(si, op)
@@ -374,7 +385,7 @@ func TestC19Concurrent(t *testing.T) {
 					if op.Kind[:3] == "SRV" {
 						msg := c19ServerMsg(op)
 						got, err := sess[i].Emit(msg)
-						if err != nil || len(got) != 1 || got[0] != msg {
+						if err != nil || (msg == nil && len(got) != 0) || (msg != nil && (len(got) != 1 || got[0] != msg)) {
 							errs[i] = fmt.Sprintf("server message not passed unaltered: %v %s", err, hx.JSON(briefServers(got)))
 							return
 						}
